@@ -36,6 +36,12 @@ fn exec(ops: &[Op]) -> Option<(String, String)> {
             let bits: Vec<usize> = b.iter_bits().collect();
             let want: Vec<usize> = s.iter().cloned().collect();
             if bits != want { return Some((format!("iter_bits() = {:?}", bits), format!("{:?}", want))); }
+            // the iterator describes the set also after it has been advanced (count / nth on the remainder)
+            let mut it = b.iter_bits();
+            let adv = s.len().min(2);
+            for _ in 0..adv { it.next(); }
+            let rest = it.count();
+            if rest != s.len() - adv { return Some((format!("iter_bits() advanced by {} then count() = {}", adv, rest), format!("{}", s.len() - adv))); }
             if b.count() != s.len() { return Some((format!("count() = {}", b.count()), format!("{}", s.len()))); }
             for i in 0..64 * N { if b.test(i) != s.contains(&i) { return Some((format!("test({}) = {}", i, b.test(i)), format!("{}", s.contains(&i)))); } }
             let txt: String = (0..64 * N).map(|i| if s.contains(&i) { '1' } else { '0' }).collect();
